@@ -11,6 +11,7 @@ mod c17;
 mod c09;
 mod c20;
 mod c19;
+mod c06;
 
 fn main() {
     let args: Vec<String> = std::env::args().collect();
@@ -32,6 +33,7 @@ fn main() {
             "C09" => c09::search(seed, &budget, thorough),
             "C20" => c20::search(seed, &budget, thorough),
             "C19" => c19::search(seed, &budget, thorough),
+            "C06" => c06::search(seed, &budget, thorough),
             _ => { println!("NOORACLE"); return; }
         };
         match res {
@@ -50,6 +52,7 @@ fn main() {
             "C09" => c09::run(&input),
             "C20" => c20::run(&input),
             "C19" => c19::run(&input),
+            "C06" => c06::run(&input),
             _ => Err("no oracle".to_string()),
         };
         match r {
